@@ -992,6 +992,41 @@ Section Lemmas.
   Lemma node_heads_NoDup_map {B} (g : stmt -> B) l : NoDup (map g l) -> NoDup (map g (node_heads l)).
   Proof. exact (NoDup_map_heads node_pass mergeable_with (fun _ => inr SEValue) g l). Qed.
 
+  (** readable consequences *)
+  Corollary group_nodes_keeps fuel cnt l out s :
+    (List.length l <= fuel)%nat -> group_nodes fa cfg fuel cnt l = inl out ->
+    In s l -> node_pass s = true -> In s out.
+  Proof.
+    intros Hlen H Hs Hp.
+    destruct (Forall2_In_l _ _ _ _ (group_nodes_spec fuel cnt l out Hlen H) (node_heads_pass s l Hs Hp)) as [r [Hr Hk]].
+    unfold node_pick in Hk. rewrite Hp in Hk. subst r. exact Hr.
+  Qed.
+
+  Corollary group_nodes_out fuel cnt l out r :
+    (List.length l <= fuel)%nat -> group_nodes fa cfg fuel cnt l = inl out -> In r out ->
+    (In r l /\ node_pass r = true) \/
+    exists a, In a l /\ node_pass a = false /\
+              (node_group l a = [r] \/
+               ((2 <= List.length (node_group l a))%nat /\ merge_group fa cfg cnt (node_group l a) = inl r)).
+  Proof.
+    intros Hlen H Hr.
+    destruct (Forall2_In_r _ _ _ _ (group_nodes_spec fuel cnt l out Hlen H) Hr) as [a [Ha Hk]].
+    apply node_heads_In in Ha. unfold node_pick in Hk. destruct (node_pass a) eqn:Ep.
+    - subst r. left. auto.
+    - right. exists a. split; [exact Ha|]. split; [exact Ep|].
+      destruct (node_group l a) as [|x [|y g]]; [destruct Hk | subst; left; reflexivity|].
+      right. split; [cbn; lia | exact Hk].
+  Qed.
+
+  (** every non-literal statement of a property other than tau is represented
+      by exactly one group: the heads that open a group have pairwise
+      different properties, and every such statement has its head *)
+  Corollary group_nodes_one_per_prop l :
+    NoDup (map s_prop (filter (fun a => negb (node_pass a)) (node_heads l))) /\
+    forall s, In s l -> node_pass s = false ->
+              exists a, In a (node_heads l) /\ node_pass a = false /\ s_prop a = s_prop s.
+  Proof. split; [apply node_heads_nodup_prop | intros s; apply node_heads_cover]. Qed.
+
   (** ** [select_valid] *)
   Lemma select_valid_eq cnt l :
     select_valid fa cfg cnt l =
